@@ -69,7 +69,7 @@ def run(ctx):
     specs = [(mods[i:i + 40], default) for i in range(0, len(mods), 40)]
     sel = mods[::4] if ctx.quick else mods
     specs += [(sel[i:i + 12], dev1) for i in range(0, len(sel), 12)]
-    core = [m for m in mods if m[0] in ("top", "wrap", "wrap-in-group", "tree", "in-object-group")]
+    core = [m for m in mods if m[0] in ("top", "wrap", "wrap-in-group", "tree", "tree-long", "in-object-group")]
     sel2 = core[::30] if ctx.quick else core[::5]
     specs += [(sel2[i:i + 3], dev2) for i in range(0, len(sel2), 3)]
     acc = ctx.pmap(shard, specs)
